@@ -918,8 +918,11 @@ def run_property(prop_id, tier="quick", seed=0, verbose=True):
         "assumptions": list(prop.META.get("assumptions", [])),
         "wall_s": round(wall, 2), "violations": len(violations),
     }
-    os.makedirs(os.path.join(ROOT, "evidence"), exist_ok=True)
-    with open(os.path.join(ROOT, "evidence", f"{prop_id}.json"), "w") as f:
+    # a run against another source tree (VERIF_REPO: seeded defects, revert tests) must not
+    # overwrite the evidence of /repo
+    evdir = "evidence" if os.path.realpath(REPO) == "/repo" else "evidence_alt"
+    os.makedirs(os.path.join(ROOT, evdir), exist_ok=True)
+    with open(os.path.join(ROOT, evdir, f"{prop_id}.json"), "w") as f:
         json.dump(evidence, f, indent=1, sort_keys=True, default=repr)
     for path, found in violations:
         rel = os.path.relpath(path, ROOT)
